@@ -81,28 +81,32 @@ pub struct Variant {
     /// hand owned containers (`String`, `Vec<u8>`) to the plain setters that take `impl Into<Cow<..>>`
     /// (`reason`, `native_data`, `SdesItemBuilder::new`, `prefix`) instead of borrowed slices
     pub cow: bool,
+    /// the other order of the padding setter: after everything else (lists, reason) where the plain flavour sets it
+    /// first (SR, RR, SDES, BYE), first where the plain flavour sets it last (APP, unknown, feedback)
+    pub pad_last: bool,
 }
 
 impl Variant {
-    pub const PLAIN: Variant = Variant { owned: false, wrap: Wrap::None, probe: false, reset: false, cow: false };
-    pub const PROBED: Variant = Variant { owned: false, wrap: Wrap::None, probe: true, reset: false, cow: false };
-    pub const RESET: Variant = Variant { owned: false, wrap: Wrap::None, probe: false, reset: true, cow: false };
-    pub const COW: Variant = Variant { owned: false, wrap: Wrap::None, probe: false, reset: false, cow: true };
+    pub const PLAIN: Variant = Variant { owned: false, wrap: Wrap::None, probe: false, reset: false, cow: false, pad_last: false };
+    pub const PROBED: Variant = Variant { owned: false, wrap: Wrap::None, probe: true, reset: false, cow: false, pad_last: false };
+    pub const RESET: Variant = Variant { owned: false, wrap: Wrap::None, probe: false, reset: true, cow: false, pad_last: false };
+    pub const COW: Variant = Variant { owned: false, wrap: Wrap::None, probe: false, reset: false, cow: true, pad_last: false };
     pub fn new(owned: bool, wrap: Wrap) -> Variant {
-        Variant { owned, wrap, probe: false, reset: false, cow: false }
+        Variant { owned, wrap, probe: false, reset: false, cow: false, pad_last: false }
     }
     /// the eight unprobed flavours, the two probed ones (borrowed / owned, bare builder) and the re-set one
     pub fn all() -> Vec<Variant> {
         let mut v = Vec::new();
         for owned in [false, true] {
             for wrap in WRAPS {
-                v.push(Variant { owned, wrap, probe: false, reset: false, cow: false });
+                v.push(Variant { owned, wrap, probe: false, reset: false, cow: false, pad_last: false });
             }
         }
-        v.push(Variant { owned: false, wrap: Wrap::None, probe: true, reset: false, cow: false });
-        v.push(Variant { owned: true, wrap: Wrap::None, probe: true, reset: false, cow: false });
-        v.push(Variant { owned: false, wrap: Wrap::None, probe: false, reset: true, cow: false });
+        v.push(Variant { owned: false, wrap: Wrap::None, probe: true, reset: false, cow: false, pad_last: false });
+        v.push(Variant { owned: true, wrap: Wrap::None, probe: true, reset: false, cow: false, pad_last: false });
+        v.push(Variant { owned: false, wrap: Wrap::None, probe: false, reset: true, cow: false, pad_last: false });
         v.push(Variant::COW);
+        v.push(Variant { pad_last: true, probe: true, ..Variant::PLAIN });
         v
     }
     /// every combination owned x wrap x probe (16), then four with every scalar setter called twice
@@ -111,18 +115,22 @@ impl Variant {
         for probe in [false, true] {
             for owned in [false, true] {
                 for wrap in WRAPS {
-                    v.push(Variant { owned, wrap, probe, reset: false, cow: false });
+                    v.push(Variant { owned, wrap, probe, reset: false, cow: false, pad_last: false });
                 }
             }
         }
         for owned in [false, true] {
             for (wrap, probe) in [(Wrap::None, false), (Wrap::Compound1, true)] {
-                v.push(Variant { owned, wrap, probe, reset: true, cow: false });
+                v.push(Variant { owned, wrap, probe, reset: true, cow: false, pad_last: false });
             }
         }
         // owned containers handed to the plain setters: bare / wrapped, plain / probed
         for (wrap, probe) in [(Wrap::None, false), (Wrap::Packet, false), (Wrap::Compound1, true)] {
-            v.push(Variant { owned: false, wrap, probe, reset: false, cow: true });
+            v.push(Variant { owned: false, wrap, probe, reset: false, cow: true, pad_last: false });
+        }
+        // padding set last, with the builder queried after every call (a query before the padding is known)
+        for (owned, wrap) in [(false, Wrap::None), (true, Wrap::None), (false, Wrap::Compound1)] {
+            v.push(Variant { owned, wrap, probe: true, reset: false, cow: false, pad_last: true });
         }
         v
     }
@@ -346,9 +354,15 @@ pub fn with_writer(p: &Pkt, var: Variant, f: &mut dyn FnMut(&dyn RtcpPacketWrite
             if rs {
                 b = ch!(on; b, .padding(other_pad(*pad)), .ntp_timestamp(!*ntp), .rtp_timestamp(!*rtp), .packet_count(!*pc), .octet_count(!*oc));
             }
-            let mut b = ch!(on; b, .ntp_timestamp(*ntp), .rtp_timestamp(*rtp), .packet_count(*pc), .octet_count(*oc), .padding(*pad));
+            let mut b = ch!(on; b, .ntp_timestamp(*ntp), .rtp_timestamp(*rtp), .packet_count(*pc), .octet_count(*oc));
+            if !var.pad_last {
+                b = pr(b.padding(*pad), on);
+            }
             for (i, rb) in blocks.iter().enumerate() {
                 b = pr(b.add_report_block(rb_builder(rb)), on && probe_at(i, blocks.len()));
+            }
+            if var.pad_last {
+                b = pr(b.padding(*pad), on);
             }
             finish(b, wrap, f)
         }
@@ -357,9 +371,12 @@ pub fn with_writer(p: &Pkt, var: Variant, f: &mut dyn FnMut(&dyn RtcpPacketWrite
             if rs {
                 b = pr(b.padding(other_pad(*pad)), on);
             }
-            let mut b = pr(b.padding(*pad), on);
+            let mut b = if var.pad_last { b } else { pr(b.padding(*pad), on) };
             for (i, rb) in blocks.iter().enumerate() {
                 b = pr(b.add_report_block(rb_builder(rb)), on && probe_at(i, blocks.len()));
+            }
+            if var.pad_last {
+                b = pr(b.padding(*pad), on);
             }
             finish(b, wrap, f)
         }
@@ -368,10 +385,13 @@ pub fn with_writer(p: &Pkt, var: Variant, f: &mut dyn FnMut(&dyn RtcpPacketWrite
             if rs {
                 b = pr(b.padding(other_pad(*pad)), on);
             }
-            let mut b = pr(b.padding(*pad), on);
+            let mut b = if var.pad_last { b } else { pr(b.padding(*pad), on) };
             for (i, c) in chunks.iter().enumerate() {
                 let on = on && probe_at(i, chunks.len());
                 b = pr(b.add_chunk(if var.cow { chunk_builder_cow(c) } else { chunk_builder_p(c, var.owned, on) }), on);
+            }
+            if var.pad_last {
+                b = pr(b.padding(*pad), on);
             }
             finish(b, wrap, f)
         }
@@ -380,16 +400,22 @@ pub fn with_writer(p: &Pkt, var: Variant, f: &mut dyn FnMut(&dyn RtcpPacketWrite
             if rs {
                 b = pr(b.padding(other_pad(*pad)), on);
             }
-            let mut b = pr(b.padding(*pad), on);
+            let mut b = if var.pad_last { b } else { pr(b.padding(*pad), on) };
             for (i, s) in ssrcs.iter().enumerate() {
                 b = pr(b.add_source(*s), on && probe_at(i, ssrcs.len()));
             }
             if var.owned {
-                let b = pr(if reason.is_empty() { b.reason_owned("") } else { b.reason_owned(reason.as_str()) }, on);
+                let mut b = pr(if reason.is_empty() { b.reason_owned("") } else { b.reason_owned(reason.as_str()) }, on);
+                if var.pad_last {
+                    b = pr(b.padding(*pad), on);
+                }
                 finish(b, wrap, f)
             } else {
                 if !reason.is_empty() {
                     b = pr(if var.cow { b.reason(reason.clone()) } else { b.reason(reason.as_str()) }, on);
+                }
+                if var.pad_last {
+                    b = pr(b.padding(*pad), on);
                 }
                 finish(b, wrap, f)
             }
@@ -399,7 +425,8 @@ pub fn with_writer(p: &Pkt, var: Variant, f: &mut dyn FnMut(&dyn RtcpPacketWrite
             if rs {
                 b = ch!(on; b, .padding(other_pad(*pad)), .data(&[9u8, 9, 9][..]), .subtype(subtype.wrapping_add(7)));
             }
-            let b = ch!(on; b, .subtype(*subtype), .data(&data[..]), .padding(*pad));
+            // the plain order sets the padding last; the "pad_last" flavour is the other order here: padding first
+            let b = if var.pad_last { ch!(on; b, .padding(*pad), .subtype(*subtype), .data(&data[..])) } else { ch!(on; b, .subtype(*subtype), .data(&data[..]), .padding(*pad)) };
             finish(b, wrap, f)
         }
         Pkt::Unknown { pt, count, data, pad } => {
@@ -407,7 +434,7 @@ pub fn with_writer(p: &Pkt, var: Variant, f: &mut dyn FnMut(&dyn RtcpPacketWrite
             if rs {
                 b = ch!(on; b, .padding(other_pad(*pad)), .count(count.wrapping_add(7)), .padding(12));
             }
-            let b = ch!(on; b, .count(*count), .padding(*pad));
+            let b = if var.pad_last { ch!(on; b, .padding(*pad), .count(*count)) } else { ch!(on; b, .count(*count), .padding(*pad)) };
             finish(b, wrap, f)
         }
         Pkt::Fb { kind, sender, media, fci, pad } => {
@@ -420,14 +447,14 @@ pub fn with_writer(p: &Pkt, var: Variant, f: &mut dyn FnMut(&dyn RtcpPacketWrite
                             if rs {
                                 b = ch!(on; b, .padding(other_pad(pad)), .sender_ssrc(!sender), .media_ssrc(!media));
                             }
-                            finish(ch!(on; b, .sender_ssrc(sender), .media_ssrc(media), .padding(pad)), wrap, f)
+                            finish(if var.pad_last { ch!(on; b, .padding(pad), .media_ssrc(media), .sender_ssrc(sender)) } else { ch!(on; b, .sender_ssrc(sender), .media_ssrc(media), .padding(pad)) }, wrap, f)
                         }
                         Kind::Payload => {
                             let mut b = pr(PayloadFeedback::$ctor($fci), on);
                             if rs {
                                 b = ch!(on; b, .padding(other_pad(pad)), .sender_ssrc(!sender), .media_ssrc(!media));
                             }
-                            finish(ch!(on; b, .sender_ssrc(sender), .media_ssrc(media), .padding(pad)), wrap, f)
+                            finish(if var.pad_last { ch!(on; b, .padding(pad), .media_ssrc(media), .sender_ssrc(sender)) } else { ch!(on; b, .sender_ssrc(sender), .media_ssrc(media), .padding(pad)) }, wrap, f)
                         }
                     }
                 };
